@@ -260,6 +260,9 @@ restart:
             }
             if (callback_rc != HTP_OK) {
                 htp_gzip_decompressor_end(drec);
+                // The buffer has been handed out; do not hand it out again on the next call.
+                drec->stream.next_out = drec->buffer;
+                drec->stream.avail_out = GZIP_BUF_SIZE;
                 return callback_rc;
             }
 
@@ -345,6 +348,8 @@ restart:
             }
             if (callback_rc != HTP_OK) {
                 htp_gzip_decompressor_end(drec);
+                drec->stream.avail_out = GZIP_BUF_SIZE;
+                drec->stream.next_out = drec->buffer;
                 return callback_rc;
             }
             drec->stream.avail_out = GZIP_BUF_SIZE;
@@ -384,12 +389,13 @@ restart:
             d2.is_last = d->is_last;
 
             callback_rc = drec->super.callback(&d2);
-            if (callback_rc != HTP_OK) {
-                return HTP_ERROR;
-            }
 
             drec->stream.avail_out = GZIP_BUF_SIZE;
             drec->stream.next_out = drec->buffer;
+
+            if (callback_rc != HTP_OK) {
+                return HTP_ERROR;
+            }
 
             /* successfully passed through, lets continue doing that */
             drec->super.passthrough = 1;
